@@ -19,6 +19,13 @@ theorem redis_wellTyped : WellTyped redisProgs = true := by decide
 /-- the in-memory dict store lives in one process: its operations do not interleave -/
 theorem dict_wellTyped : WellTypedAtomic dictProgs = true := by decide
 
+/-- `fail()` on a name that is not locked has no effect (jug calls it on a lock that `jug cleanup --locks-only` removed while the
+    task ran): run alone on a free lock, the extracted `fail` program of every interleaving backend leaves it free -/
+def failOnFreeNoop (progs : Progs) : Bool := (runSolo 8 (progs .fail) .free).2 == .free
+theorem file_fail_on_free : failOnFreeNoop fileProgs = true := by decide
+theorem keepalive_fail_on_free : failOnFreeNoop keepaliveProgs = true := by decide
+theorem redis_fail_on_free : failOnFreeNoop redisProgs = true := by decide
+
 /-! ### histories -/
 
 /-- run a history, collecting the results of completed operations (most recent first) -/
